@@ -385,3 +385,15 @@ class Check:
         print("%s: OK tier=%s states=%d transitions=%d traces=%d evaluations=%d wall=%.1fs" % (
             self.prop, self.tier, self.states, self.transitions, self.traces, self.evaluations, wall))
         return 0
+
+
+def apalache(spec, args, timeout=900):
+    """Run apalache-mc check on spec/apalache/<spec>; returns 'NoError' | 'Error' | 'unknown'."""
+    d = os.path.join(SPEC, "apalache")
+    out = os.path.join(rundir(), "apalache-out")
+    try:
+        rc, o, e = sh(["apalache-mc", "check", "--out-dir=" + out] + args + [spec], cwd=d, timeout=timeout)
+    except ToolError:
+        return "unknown"
+    m = re.search(r"The outcome is: (\w+)", o + e)
+    return m.group(1) if m else "unknown"
